@@ -93,7 +93,9 @@ def _remove_trailing(children):
 def _valid_child_name(child_name, expected_parent):
     try:
         parent, index = child_name.rsplit('_', 1)
-        int(index)
+        # positions start at 1 and are written plainly: <parent>_0, <parent>_-1 and <parent>_07 name no child
+        if int(index) < 1 or str(int(index)) != index:
+            return False
     except (ValueError, AttributeError):
         return False
     else:
